@@ -220,8 +220,16 @@ class guard:
         st["deadline"] = time.monotonic() + PARSE_LIMIT_S
         return self
 
-    def __exit__(self, *a):
-        self._state["deadline"], self._state["tid"] = self.outer if self.outer[0] is not None else (None, None)
+    def __exit__(self, exc_type, *a):
+        st = self._state
+        if st["deadline"] is None and exc_type is None:
+            # the watchdog fired while the block was finishing: its exception is still pending for this thread and
+            # would surface somewhere after the block -- withdraw it
+            import ctypes
+
+            ctypes.pythonapi.PyThreadState_SetAsyncExc(ctypes.c_ulong(st["tid"] or 0), None)
+            ABANDONED[0] -= 1
+        st["deadline"], st["tid"] = self.outer if self.outer[0] is not None else (None, None)
         return False
 
 
